@@ -31,6 +31,9 @@ ops (one line, words separated by blanks; bytes as hex, "-" = empty):
   PAYLOAD := <n> (<key> OPTB)*             in the iteration order of the Go map
   OPTB    := n | v<hex>
 
+  encz HDR REQ                                → the same built with the toy compressor configured (FrameWrite.encodeReqC (some toyEnc))
+  decz <framehex> HDR REQ                     → spec-backed: the compression-aware specification decoder (FrameSpec.decodeReqC toyDec)
+                                                 on the real bytes against what was asked for, answers as for `dec`
   hs CFG AUTH PLAN ANSWERS FRAMES             → handshake tier, SPECIFICATION: the requests due for (CFG, AUTH, PLAN) when the
                                                  peer answers ANSWERS (Handshake.specReqs) are compared, one by one, with what
                                                  the spec decoder reads out of FRAMES (the frames the peer received from the real
@@ -45,7 +48,7 @@ ops (one line, words separated by blanks; bytes as hex, "-" = empty):
              n = nil token, e = <hex> ++ latest challenge, c = <hex> ++ all challenges so far, m = the latest challenge
              itself (nil stays nil), x = error; next = a challenger is returned; rounds beyond the list: error
   PLAN    := <n> (use <ks> | reg <topo> <status> <schema> | exec <stmt> <cons> <n> OPTB*)*
-  ANSWERS := <n> (sup <n> (<key> <n> <val>*)* | ready | authn <class> | chal OPTB | succ OPTB | err | setks | void | prep <id> <ncols>)*
+  ANSWERS := <n> (sup <n> (<key> <n> <val>*)* | ready | authn <class> | chal OPTB | succ OPTB | err | setks | void | prep <id> <ncols> | unprep <id>)*
   FRAMES  := <n> <hex>*        ORDER := <n> <key>*  (iteration order of the STARTUP map)      STREAMS := <n> <int>*
 -/
 
@@ -322,6 +325,9 @@ def pAnswer : P PeerAnswer
     let (id, r) ← pHex r
     let (n, r) ← pNat r
     pure (PeerAnswer.prepared id n, r)
+  | "unprep" :: r => do
+    let (id, r) ← pHex r
+    pure (PeerAnswer.unprepared id, r)
   | _ => none
 
 structure HsLine where
@@ -419,6 +425,28 @@ def step (_ : Unit) (ws : List String) : Unit × String :=
       let want := ask now0 g
       if !Expressible h.v want then "inexpressible" else
       match decodeReq bs with
+      | none => "mismatch:undecodable"
+      | some d =>
+        if d.version ≠ h.v then "mismatch:version"
+        else if d.tracing ≠ h.tracing then "mismatch:tracing"
+        else if d.stream ≠ h.stream then "mismatch:stream"
+        else if d.rest ≠ [] then "mismatch:rest"
+        else if canonReq d.req ≠ canonReq want then "mismatch:request"
+        else "ok"
+    | _, _ => "bad-op"
+  | "encz" :: r =>
+    match pHdrReq r with
+    | some ((h, g), []) =>
+      match encodeReqC (some toyEnc) h.v h.tracing h.stream now0 g with
+      | .ok bs => toHex bs
+      | .error e => "rejected:" ++ errName e
+    | _ => "bad-op"
+  | "decz" :: fh :: r =>
+    match parseHex fh, pHdrReq r with
+    | some bs, some ((h, g), []) =>
+      let want := ask now0 g
+      if !Expressible h.v want then "inexpressible" else
+      match decodeReqC toyDec bs with
       | none => "mismatch:undecodable"
       | some d =>
         if d.version ≠ h.v then "mismatch:version"
